@@ -103,6 +103,34 @@ def module_state(ctx, modnames):
                 elif isinstance(st, ast.Try):
                     walk_top(st.body)
         walk_top(src.tree.body)
+        # a module-level container is *state* only if something mutates it; a lookup table that is only read is a constant
+        mutated = set()
+        for node in ast.walk(src.tree):
+            if isinstance(node, ast.Call) and isinstance(node.func, ast.Attribute) and node.func.attr in MUTATORS:
+                mutated.add(ast.unparse(node.func.value))
+            elif isinstance(node, (ast.Assign, ast.AugAssign, ast.Delete, ast.AnnAssign)):
+                tg = node.targets if isinstance(node, (ast.Assign, ast.Delete)) else [node.target]
+                for t in tg:
+                    if isinstance(t, ast.Subscript):
+                        mutated.add(ast.unparse(t.value))
+                    elif isinstance(node, ast.AugAssign) and isinstance(t, ast.Name):
+                        mutated.add(t.id)
+        for other in ctx.sm.by_prefix("kio"):
+            if other.name == mn or other.name.startswith("kio.schema."):
+                continue
+            short = mn.rsplit(".", 1)[-1]
+            if short not in other.text:
+                continue
+            for node in ast.walk(other.tree):
+                if isinstance(node, ast.Call) and isinstance(node.func, ast.Attribute) and node.func.attr in MUTATORS and \
+                        isinstance(node.func.value, ast.Attribute):
+                    mutated.add(node.func.value.attr)
+                elif isinstance(node, ast.Subscript) and isinstance(node.ctx, (ast.Store, ast.Del)) and isinstance(node.value, ast.Attribute):
+                    mutated.add(node.value.attr)
+        for row in out:
+            if row["kind"] == "module-mutable" and row["module"] == mn and row["name"] not in mutated and \
+                    not any(w in row["what"] for w in ("BytesIO", "bytearray", "StringIO", "deque", "array")):
+                row["kind"] = "module-container-readonly"
         for node in ast.walk(src.tree):
             if isinstance(node, (ast.Global, ast.Nonlocal)):
                 q, _ = enclosing(qidx, src.tree, node)
